@@ -6,7 +6,7 @@ Require Import ExtrOcamlBasic.
 Require Import Selium.Base Selium.RustArith Selium.BackoffSpec Selium.BackoffRun.
 Require Import SeliumGen.Backoff.
 Require Import Selium.Regex Selium.TopicSpec Selium.TopicName.
-Require Import Selium.Bytes Selium.Utf8 Selium.Bincode Selium.Wire SeliumGen.Layouts Selium.Transforms.
+Require Import Selium.Bytes Selium.Utf8 Selium.Bincode Selium.Wire SeliumGen.Layouts Selium.Transforms Selium.PubSub Selium.PubSubSpec.
 
 Extraction Language OCaml.
 Extraction "model.ml"
@@ -15,4 +15,6 @@ Extraction "model.ml"
   BackoffRun.run BackoffRun.spec_obs BackoffRun.into_iter
   Wire.encode Wire.decode Wire.run_feed Wire.norm_frame Wire.encode_batch Wire.decode_batch Layouts.frame_length Utf8.utf8_valid Bytes.be_val
   Transforms.string_decode Transforms.bytes_decode Transforms.bincode_decode Transforms.bincode_encode Transforms.c_Dummy Transforms.c_VecString Transforms.c_OptT
+  PubSub.init PubSub.step PubSub.run_count PubSub.panicked PubSub.settled
+  PubSubSpec.c01_state_ok PubSubSpec.live_ok PubSubSpec.delivered_all PubSubSpec.c16_state_ok PubSubSpec.obs_c01_ok PubSubSpec.obs_delivered_all PubSubSpec.obs_all_adopted PubSubSpec.obs_c16_ok PubSubSpec.obs_c09_bounded_ok PubSubSpec.completed
   TopicName.try_from TopicName.create TopicName.is_valid TopicName.print TopicSpec.name_ok.
